@@ -325,7 +325,7 @@ pub fn run(report: &Report, budget: &Budget) {
     let f = |st: &HState, scratch: &Scratch, _srcs: &SrcCache| -> Vec<(Violation, Value)> {
         on_state(st, scratch, st.depth <= deep_depth, &counters)
     };
-    let st = hist::explore(report, budget, "C05", depth, thorough, false, &noop, Some(&f), None);
+    let st = hist::explore(report, budget, "C05", depth, thorough, false, thorough, &noop, Some(&f), None);
     hist::write_stats(report, &st, depth);
     use std::sync::atomic::Ordering::SeqCst;
     report.set("delete_runs_fault_free", json!(counters.runs.load(SeqCst)));
